@@ -1745,3 +1745,56 @@ package raft
 
 //@ -- tickHeartbeat is not under contract yet: its second Step call needs the assumed node invariants (node_inv_assumed) re-established
 //@ -- by the first, which the Step contract does not provide.
+
+//@ -- ------------------------------------------------------------------------------------------
+//@ -- rawnode.go / node.go: what a Ready hands out (first part of the API layer; acceptReady/Advance are not under contract yet)
+
+//@ pred hsEqual(a *pb.HardState, b *pb.HardState) := a.GetTerm() == b.GetTerm() && a.GetVote() == b.GetVote() && a.GetCommit() == b.GetCommit()
+//@ -- the package-level emptyState is an all-zero HardState that nothing writes (global initial value; not derivable from a function body)
+//@ pred empty_state_zero() := emptyState != nil && emptyState.GetTerm() == 0 && emptyState.GetVote() == 0 && emptyState.GetCommit() == 0
+//@ pred wf_rawnode(rn *RawNode) := rn != nil && rn.raft != nil && wf_raft(rn.raft) && rn.prevHardSt != nil && rn.prevSoftSt != nil && empty_state_zero()
+
+//@ func raft.isHardStateEqual [C07]
+//@   pure
+//@   ensures result <==> hsEqual(a, b)
+//@ func raft.IsEmptyHardState [C07]
+//@   pure
+//@   requires #globals empty_state_zero()
+//@   ensures result <==> (st == nil || (st.GetTerm() == 0 && st.GetVote() == 0 && st.GetCommit() == 0))
+//@ func raft.MustSync [C05]
+//@   pure
+//@   ensures #def [C05] result <==> (entsnum != 0 || st.GetVote() != prevst.GetVote() || st.GetTerm() != prevst.GetTerm())
+
+//@ func raft.RawNode.HasReady [C05 C07 C02]
+//@   requires wf_rawnode(rn)
+//@   requires #size-accounting [C14] rn.raft.raftLog.applyingEntsPaused || rn.raft.raftLog.applyingEntsSize < rn.raft.raftLog.maxApplyingEntsSize
+//@   -- every change of the hard state (term, vote or commit) makes the node ready: a vote cannot stay unpersisted unnoticed
+//@   ensures #hardstate-change-is-ready [C07 C02 C05] (rn.raft.Term != rn.prevHardSt.GetTerm() || rn.raft.Vote != rn.prevHardSt.GetVote() || rn.raft.raftLog.committed != rn.prevHardSt.GetCommit())
+//@        && !(rn.raft.Term == 0 && rn.raft.Vote == 0 && rn.raft.raftLog.committed == 0) ==> result
+//@   ensures #messages-are-ready [C05] len(rn.raft.msgs) > 0 || len(rn.raft.msgsAfterAppend) > 0 ==> result
+//@   ensures #unstable-is-ready [C05] rn.raft.raftLog.hasNextUnstableEnts() ==> result
+//@   ensures #unchanged node_unchanged(rn.raft) && rn.prevHardSt == old(rn.prevHardSt)
+
+//@ pred unstableTail(l *raftLog, s []*pb.Entry) := (l.unstable.offsetInProgress == l.unstable.offset + len(l.unstable.entries) ==> len(s) == 0)
+//@     && (l.unstable.offsetInProgress < l.unstable.offset + len(l.unstable.entries) ==> s.arr == l.unstable.entries.arr
+//@           && s.off == l.unstable.entries.off + (l.unstable.offsetInProgress - l.unstable.offset)
+//@           && len(s) == len(l.unstable.entries) - (l.unstable.offsetInProgress - l.unstable.offset))
+//@ func raft.RawNode.readyWithoutAccept [C05 C07 C08 C02]
+//@   requires wf_rawnode(rn)
+//@   case rn.asyncStorageWrites
+//@   case !rn.asyncStorageWrites
+//@   requires #size-accounting [C14] rn.raft.raftLog.applyingEntsPaused || rn.raft.raftLog.applyingEntsSize < rn.raft.raftLog.maxApplyingEntsSize
+//@   -- the whole not-yet-in-progress unstable tail is handed out for persistence (never a size-limited part of it)
+//@   ensures #entries-all-unstable [C05 C03] unstableTail(rn.raft.raftLog, result.Entries)
+//@   -- the hard state is handed out exactly when it differs from what the application last received
+//@   ensures #hardstate-iff-changed [C07 C02 C05] (result.HardState == nil) <==> (rn.raft.Term == rn.prevHardSt.GetTerm() && rn.raft.Vote == rn.prevHardSt.GetVote() && rn.raft.raftLog.committed == rn.prevHardSt.GetCommit())
+//@   ensures #hardstate-values [C07] result.HardState != nil ==> result.HardState.GetTerm() == rn.raft.Term && result.HardState.GetVote() == rn.raft.Vote && result.HardState.GetCommit() == rn.raft.raftLog.committed
+//@   ensures #must-sync [C05] result.MustSync <==> (len(result.Entries) != 0 || rn.raft.Vote != rn.prevHardSt.GetVote() || rn.raft.Term != rn.prevHardSt.GetTerm())
+//@   ensures #immediate-first [C05] len(result.Messages) >= len(rn.raft.msgs) && (!rn.asyncStorageWrites ==> (forall p int :: {elem(result.Messages, p)} result.Messages.off <= p && p < result.Messages.off + len(rn.raft.msgs)
+//@        ==> elem(result.Messages, p) == oldelem(rn.raft.msgs, old(rn.raft.msgs.off) + (p - result.Messages.off))))
+//@   ensures #async-deferred-not-direct [C05] rn.asyncStorageWrites ==> len(result.Messages) <= len(rn.raft.msgs) + 2
+//@        && (forall j int :: len(rn.raft.msgs) <= j && j < len(result.Messages) ==> result.Messages[j].GetType() == pb.MsgStorageAppend || result.Messages[j].GetType() == pb.MsgStorageApply)
+//@   ensures #unchanged node_unchanged(rn.raft) && rn.prevHardSt == old(rn.prevHardSt) && rn.prevSoftSt == old(rn.prevSoftSt)
+//@   loop 1 invariant #range 0 <= iter && iter <= len(rn.raft.msgsAfterAppend) && len(rd.Messages) >= len(rn.raft.msgs) && node_unchanged(rn.raft)
+//@   loop 1 invariant #prefix forall p int :: {elem(rd.Messages, p)} rd.Messages.off <= p && p < rd.Messages.off + len(rn.raft.msgs)
+//@        ==> elem(rd.Messages, p) == oldelem(rn.raft.msgs, old(rn.raft.msgs.off) + (p - rd.Messages.off))
